@@ -26,7 +26,7 @@ CLAIMS = {
  "C20": ("C20_accepted_output_order_independent, C20_error_order_refuted (+partial), C20_cli_status, C20_dispatch_on_extension over models of the hash-container passes (iteration order an explicit parameter) and of the CLI/macro dispatch; run-time facts (process/thread/hash-seed independence, files, macro expansion) tied by repeated CLI processes, threads, -o vs stdout, and a create_device! crate next to included CLI output.",
          "Partial by nature: determinism of the real binary is observed over K runs, not proved; D13 (error choice among several dangling refs) is a known finding. " + TB, "5 C20"),
 
- "C19": ("PARTIAL BY NATURE. Coq carries the name/reference/literal obligations of the emitted items (Emit.v: wf_output): machine-checked refutations with witnesses (D7 WO field, D8 negative stride under an unsigned address type, D9 block ref duplicates, D12 duplicate discriminant, D16 negative discriminant on uint, D17 signed discriminant beyond iN, D20 enum named like a block / the driver) and C19_wf_output_partial for definitions outside those classes; that rustc accepts the output is tied by the correspondence alone: batches of accepted cfg-free definitions over the documented language are cargo-checked as no_std-compatible modules, every diagnostic mapped to its definition; known classes must fail exactly as recorded, anything else is a violation; syn parse and accessor presence are checked too.",
+ "C19": ("PARTIAL BY NATURE. Coq carries the name/reference/literal obligations of the emitted items (Emit.v: wf_output): machine-checked refutations with witnesses (D7 WO field, D8 negative stride under an unsigned address type, D9 block ref duplicates, D12 duplicate discriminant, D16 negative discriminant on uint, D17 signed discriminant beyond iN, D20 output-identifier collisions names_unique does not see, D21 keyword identifiers); the failing obligation Emit.v computes on the real MIR of EVERY compiled definition is compared with rustc's verdict (no failing obligation => must compile; a failing obligation => must fail with that class's recorded error; a predicted failure that compiles breaks the correspondence) and C19_wf_output_partial for definitions outside those classes; that rustc accepts the output is tied by the correspondence alone: batches of accepted cfg-free definitions over the documented language are cargo-checked as no_std-compatible modules, every diagnostic mapped to its definition; known classes must fail exactly as recorded, anything else is a violation; syn parse and accessor presence are checked too.",
          "rustc/cargo are the observers; Rust's type system is not modelled. " + TB, "5 C19"),
 
  "C04": ("C04_address_chain_exact / C04_address_exact (induction over any chain of nested block accessors: the emitted checked arithmetic, if it does not panic, equals sum(offset + index*stride) in the integers, negative values included), C04_index_guard(+chain), C04_ref_address, C04_read_all_visits, C04_read_all_reports_bus_address_nonroot/_root (reported address = bus address; D2 was repaired in /repo); tie = accepted random trees compiled with a recording mock: every valid index tuple and the first invalid index per level called in a debug build; bus address vs the Coq model on the real MIR and vs the property's formula from the abstract definition; read_all_registers on every block instance.",
